@@ -74,6 +74,12 @@ def build() -> Check:
             drained = [e for e in after if e.kind in ("Q_GET", "Q_EMPTY") and e.data["queue"] == q]
             if not drained:
                 b_drain.append((f"the {q} queue is not drained after a failed call: its synchronous callers stay blocked", t))
+        # "drained" means read until it is empty: a queue that was just seen NON-empty is read next (or the unrolling bound of the model cut the loop)
+        for k_, e in enumerate(after):
+            if e.kind == "Q_EMPTY" and e.data.get("result") is False:
+                nxt = next((x for x in after[k_ + 1:] if (x.kind == "Q_GET" and x.data["queue"] == e.data["queue"]) or x.kind == "LOOP_CUT"), None)
+                if nxt is None:
+                    b_drain.append((f"the {e.data['queue']} queue is looked at, found non-empty and not read: the synchronous callers in it stay blocked", t))
         for e in after:
             if e.kind == "Q_GET" and e.data.get("item_v") is not None:
                 ev = e.data["item_v"].fields.get("completion_event")
@@ -351,6 +357,45 @@ def build() -> Check:
             bad.append(("a checkpoint is attempted after the background failure was reported", t))
     ck.floor("wrapper_bte_traces", n_bte, 1)
     ck.ob("R5.wrapper-outcome", fn_construct(wrapper), not bad, (bad[0][0] + ": " + trace_sig(bad[0][1])[-300:]) if bad else f"{n_bte} paths")
+
+    # R5 "according to the error's classification": the envelope's payload is opaque to the trace model (isinstance on it is not explored), so the shape of
+    # every place that opens the envelope is judged directly: a CheckpointError goes through handle_checkpoint_error (which raises the retriable ones and
+    # answers FAILED for the others), anything else is raised as it is. (mutscan: the isinstance test negated in one of the three places, nothing noticed.)
+    n_open = 0
+    for h in [n for n in ast.walk(wrapper.node) if isinstance(n, ast.ExceptHandler) and h_covers_bte(prog, wrapper, n) and n.name
+              and n.type is not None and "BackgroundThreadError" in ast.unparse(n.type)]:
+        n_open += 1
+
+        def opened_by_classification(body, name):
+            src = f"{name}.source_exception"
+            ifs = [x for x in ast.walk(ast.Module(body=body, type_ignores=[])) if isinstance(x, ast.If)]
+            g_if = [x for x in ifs if ast.unparse(x.test).replace(" ", "") == f"isinstance({src},CheckpointError)"
+                    and any(isinstance(r, ast.Return) and r.value is not None and f"handle_checkpoint_error({src})" in ast.unparse(r.value) for r in x.body)]
+            t_raise = bool(body) and isinstance(body[-1], ast.Raise) and body[-1].exc is not None and ast.unparse(body[-1].exc) == src
+            return bool(g_if), t_raise
+        good_if, tail_raise = opened_by_classification(h.body, h.name)
+        if not (good_if and tail_raise):
+            # the same shape behind one helper the handler hands the envelope to (`return self._open(bg_error)` / `return open_envelope(bg_error)`)
+            for c_ in ast.walk(ast.Module(body=h.body, type_ignores=[])):
+                if isinstance(c_, ast.Call) and any(isinstance(a_, ast.Name) and a_.id == h.name for a_ in c_.args):
+                    fname = c_.func.id if isinstance(c_.func, ast.Name) else (c_.func.attr if isinstance(c_.func, ast.Attribute) else None)
+                    cand = [f_ for f_ in prog.functions.values() if f_.name == fname and f_.module is wrapper.module and not isinstance(f_.node, ast.Lambda)]
+                    for f_ in cand:
+                        ps = [a_.arg for a_ in f_.node.args.args if a_.arg != "self"]
+                        if ps:
+                            g2, t2 = opened_by_classification([st for st in f_.node.body if not (isinstance(st, ast.Expr) and isinstance(st.value, ast.Constant))], ps[0])
+                            good_if, tail_raise = good_if or g2, tail_raise or t2
+        ck.ob("R5.envelope-opened-by-classification", fn_construct(wrapper), bool(good_if) and tail_raise,
+              f"`except BackgroundThreadError as {h.name}` (line {h.lineno}) does not hand a CheckpointError to handle_checkpoint_error and raise everything else as it is: "
+              "the invocation is retried / answered FAILED against the error's classification", where=f"line {h.lineno}", cell=f"handler at line-order {n_open}")
+    ck.floor("envelope_opening_handlers", n_open, 2)
+    hce = prog.functions.get(f"{wrapper.module.name}:handle_checkpoint_error")
+    if hce is None:
+        raise AnalysisError("handle_checkpoint_error not found")
+    ifs_ = [x for x in hce.node.body if isinstance(x, ast.If)]
+    ok_hce = len(ifs_) == 1 and ast.unparse(ifs_[0].test) == f"{hce.node.args.args[0].arg}.is_retriable()" and any(isinstance(r, ast.Raise) for r in ifs_[0].body) \
+        and isinstance(hce.node.body[-1], ast.Return) and "InvocationStatus.FAILED" in ast.unparse(hce.node.body[-1])
+    ck.ob("R5.envelope-opened-by-classification", fn_construct(hce), ok_hce, "handle_checkpoint_error does not raise exactly the retriable errors and answer FAILED for the others", cell="classifier")
 
     # R5b a failure of a call that carried only fire-and-forget updates (context STARTs, the empty refresh of a resume timer) wakes nobody in the
     # handler's thread: the handler can finish or suspend normally. The verdict SUCCEEDED / PENDING may therefore only be given after the
